@@ -1,7 +1,7 @@
 (* Run/Dispatch.v — one entry point for the extracted runner: kind + arguments -> rendered result.
    All kind-specific glue is here so the OCaml driver stays generic.  The only effectful thing in
    the runner is [oracle], a question/answer call-back answered by the Go standard library. *)
-From FDO Require Export Run.Sexp Rv.RvImpl.
+From FDO Require Export Run.Sexp Rv.RvImpl Cose.Sign1.
 Local Open Scope N_scope.
 
 Definition unhexnum (b : bytes) : option N :=
@@ -102,13 +102,75 @@ Section Dispatch.
       end
     else None.
 
+  (* ---- COSE ---- *)
+  Definition sch_name (x : sigscheme) : bytes :=
+    match x with SchEcdsa => s "ecdsa"%bs | SchPkcs1 => s "pkcs1"%bs | SchPss => s "pss"%bs end.
+  Definition O_verify (id : bytes) (sch : sigscheme) (h : N) (tbs : bytes) (parts : list bytes) : bool :=
+    bytes_eqb (oracle (s "verify "%bs ++ hex id ++ sp ++ sch_name sch ++ sp ++ hexnum h ++ sp ++ s "b:"%bs ++ hex tbs
+                       ++ flat_map (fun p => sp ++ s "b:"%bs ++ hex p) parts)) (s "1"%bs).
+  Definition O_hmac (h : N) (key msg : bytes) : bytes :=
+    match unhex (oracle (s "hmac "%bs ++ hexnum h ++ s " b:"%bs ++ hex key ++ s " b:"%bs ++ hex msg)) with
+    | Some x => x | None => [] end.
+
+  Definition ty_sign1 (tP : ty) : ty :=
+    TStruct [(false, TProtHdr); (false, TMap TLabel TAny); (false, TPtr (wrap_ty tP)); (false, TBytes)].
+
+  Definition parse_key (kind : arg) (n : arg) (id : arg) : option pubkey :=
+    match n, id with
+    | AN n', AB id' =>
+      if sym_is kind "ec"%bs then Some (PubEC (N.to_nat n') id')
+      else if sym_is kind "rsa"%bs then Some (PubRSA id')
+      else Some PubOther
+    | _, _ => None
+    end.
+
+  Definition parse_optval (a : arg) : option (option val) :=
+    if sym_is a "none"%bs then Some None else option_map Some (parse_val a).
+
+  Definition render_bool (b : bool) : bytes := if b then s "T"%bs else s "F"%bs.
+
+  Definition run_cose (kind : bytes) (args : list arg) : option bytes :=
+    if bytes_eqb kind (s "cose.verify"%bs) then
+      match args with
+      | [tp; kk; kn; kid; AB obj; det; aad] =>
+        match parse_ty tp, parse_key kk kn kid, parse_optval det, parse_val aad with
+        | Some tP, Some key, Some detached, Some aadv =>
+          match munmarshal (ty_sign1 tP) obj with
+          | Ok (VList [VMap prot; _; pl; VBytes sig]) =>
+            let stored := match pl with VNull => None | x => Some x end in
+            Some (render_outcome render_bool
+                    (sign1_verify O_der O_rfc3339 O_verify tP TBytes key prot stored detached sig aadv))
+          | Ok _ => Some (s "err-shape"%bs)
+          | _ => Some (s "err-decode"%bs)
+          end
+        | _, _, _, _ => Some bad_args
+        end
+      | _ => Some bad_args
+      end
+    else if bytes_eqb kind (s "cose.mac0"%bs) then
+      match args with
+      | [tp; AZ alg; AB key; protv; pl; aad] =>
+        match parse_ty tp, parse_val protv, parse_val pl, parse_val aad with
+        | Some tP, Some (VMap prot), Some plv, Some aadv =>
+          Some (render_outcome (fun r => render_val (VMap (fst r)) ++ sp ++ s "b:"%bs ++ hex (snd r))
+                               (mac0_digest O_hmac tP TBytes alg key prot plv aadv))
+        | _, _, _, _ => Some bad_args
+        end
+      | _ => Some bad_args
+      end
+    else None.
+
   Definition dispatch (kind : bytes) (args : list arg) : bytes :=
     match run_cbor kind args with
     | Some r => r
     | None =>
       match run_rv kind args with
       | Some r => r
-      | None => s "unknown-kind"%bs
+      | None =>
+        match run_cose kind args with
+        | Some r => r
+        | None => s "unknown-kind"%bs
+        end
       end
     end.
 End Dispatch.
